@@ -32,6 +32,12 @@ def check(ctx: Ctx) -> None:
     r5(ctx)
     from .c10 import r4 as c10_r4
     c10_r4(ctx, "C18.R6")
+    # creation interrupted / pointer lost: the pointer is written after the metadata file it names, only by the two sanctioned
+    # writers (under the metadata lock), and recovery's listing is complete
+    from .c03 import r2 as c03_r2
+    c03_r2(ctx, "C18.R7")
+    from .c20 import r5 as c20_r5
+    c20_r5(ctx, "C18.R8")
 
 
 def r1(ctx: Ctx, rid: str) -> None:
